@@ -210,7 +210,7 @@ def eval_rt(items, vals, out, counters):
             for i, tree in items:
                 vs = vals[i]
                 pv.update(C02.port_values(i, tree, vs[k % len(vs)]))
-            sim.set_many(pv)
+            sim = C02.apply_valuation(d, sim, pv, counters)
             for i, tree in items:
                 if k < len(vals[i]):
                     res[i].append(sim.get(f"c{i}"))
